@@ -290,28 +290,42 @@ RulesOf(name, act) ==
 
 InclSub(r) == Has(prog.rules[r], "inclsub") /\ prog.rules[r].inclsub
 
-\* result of one iteration: [rows, fail]; all heads are evaluated against the pre-state
+\* RunReport.updated of one iteration, as the engine computes it: some staged
+\* insertion changed a table (new key -- also a key removed earlier in the same
+\* iteration --, a merge that changed the value, a subsume flag newly set) or the
+\* union-find grew.  Removals alone do not count.
+IterUpd(R, acc) ==
+  LET R1 == {r \in R : <<r.f, r.a>> \notin acc.dels} IN
+  \/ \E n \in acc.new : RowsAt(R1, n.f, n.a) = {}
+  \/ \E w \in acc.sets : LET hit == RowsAt(R1, w[1], w[2]) IN
+                           hit = {} \/ \E r \in hit : MergeV(w[1], r.o, w[3]) # r.o
+  \/ \E w \in acc.subs : LET hit == RowsAt(R1 \cup acc.new, w[1], w[2]) IN
+                           hit = {} \/ \E r \in hit : ~r.s
+  \/ \E p \in acc.unions : p[1] # p[2]
+
+\* result of one iteration: [rows, fail, upd]; all heads are evaluated against the pre-state
 RunOnce(R, name, act) ==
   LET todo == UNION {{<<r, s>> : s \in Matches(R, prog.rules[r].body, InclSub(r))} : r \in RulesOf(name, act)}
       acc == ExecAll(R, todo, EmptyAcc)
       R5 == ApplyAcc(R, acc)
-  IN IF acc.panic \/ Poisoned(R5) THEN [rows |-> R, fail |-> TRUE, n |-> Cardinality(todo)]
-     ELSE [rows |-> Canonize(R5), fail |-> FALSE, n |-> Cardinality(todo)]
+  IN IF acc.panic \/ Poisoned(R5) THEN [rows |-> R, fail |-> TRUE, upd |-> FALSE, n |-> Cardinality(todo)]
+     ELSE [rows |-> Canonize(R5), fail |-> FALSE, upd |-> IterUpd(R, acc), n |-> Cardinality(todo)]
 
 \* ------------------------------------------------------------- schedules
 \* sched: [k |-> "run", rs, until (seq of atoms; <<>> = none)] | [k |-> "rep", n, b] | [k |-> "sat", b] | [k |-> "seq", b]
 \* result: [rows, upd, stop, fail]    (RunReport.updated / can_stop)
 CheckFacts(R, facts) == Matches(R, facts, TRUE) # {}
 
-RECURSIVE Sched(_, _, _), SchedSeq(_, _, _, _, _), SchedRep(_, _, _, _, _), SchedSat(_, _, _, _)
+SatFuel == 40        \* a saturate that has not converged after this many rounds is reported as failed
+RECURSIVE Sched(_, _, _), SchedSeq(_, _, _, _, _), SchedRep(_, _, _, _, _), SchedSat(_, _, _, _, _)
 Sched(R, sc, act) ==
   IF sc.k = "run" THEN
     IF Len(sc.until) > 0 /\ CheckFacts(R, sc.until) THEN [rows |-> R, upd |-> FALSE, stop |-> TRUE, fail |-> FALSE]
     ELSE LET it == RunOnce(R, sc.rs, act) IN
-         [rows |-> it.rows, upd |-> it.rows # R, stop |-> it.rows = R, fail |-> it.fail]
+         [rows |-> it.rows, upd |-> it.upd, stop |-> ~it.upd, fail |-> it.fail]
   ELSE IF sc.k = "seq" THEN SchedSeq(R, sc.b, 1, act, [rows |-> R, upd |-> FALSE, stop |-> TRUE, fail |-> FALSE])
   ELSE IF sc.k = "rep" THEN SchedRep(R, sc.b, sc.n, act, [rows |-> R, upd |-> FALSE, stop |-> TRUE, fail |-> FALSE])
-  ELSE SchedSat(R, sc.b, act, [rows |-> R, upd |-> FALSE, stop |-> TRUE, fail |-> FALSE])
+  ELSE SchedSat(R, sc.b, act, [rows |-> R, upd |-> FALSE, stop |-> TRUE, fail |-> FALSE], SatFuel)
 
 \* b is a sequence of schedules (an implicit seq)
 SchedSeq(R, b, k, act, rep) ==
@@ -327,11 +341,12 @@ SchedRep(R, b, n, act, rep) ==
            rep2 == [rows |-> x.rows, upd |-> rep.upd \/ x.upd, stop |-> rep.stop /\ x.stop, fail |-> x.fail]
        IN IF x.stop THEN rep2 ELSE SchedRep(R, b, n - 1, act, rep2)
 
-SchedSat(R, b, act, rep) ==
+SchedSat(R, b, act, rep, fuel) ==
   IF rep.fail THEN rep
+  ELSE IF fuel = 0 THEN [rep EXCEPT !.fail = TRUE]
   ELSE LET x == Sched(rep.rows, Body(b), act)
            rep2 == [rows |-> x.rows, upd |-> rep.upd \/ x.upd, stop |-> rep.stop /\ x.stop, fail |-> x.fail]
-       IN IF ~x.upd THEN rep2 ELSE SchedSat(R, b, act, rep2)
+       IN IF ~x.upd THEN rep2 ELSE SchedSat(R, b, act, rep2, fuel - 1)
 
 \* ------------------------------------------------------------- commands
 \* Each returns [rows, ok].
